@@ -3,15 +3,18 @@
 package control
 
 import (
+	"encoding/binary"
 	"encoding/json"
 	"fmt"
 	"net/netip"
 	"sort"
 	"testing"
 
+	"github.com/cilium/ebpf"
 	"github.com/daeuniverse/dae/common"
 	"github.com/daeuniverse/dae/pkg/verifutil"
 	dnsmessage "github.com/miekg/dns"
+	"golang.org/x/sys/unix"
 )
 
 // behaviours emitted by spec/DomainTracker.tla
@@ -179,4 +182,106 @@ func c10Words(b [32]uint32) string {
 		return "0"
 	}
 	return s
+}
+
+// ---- a full kernel table (DomainTracker.tla with Cap = 2): failed syncs, retries ------------------------------------
+
+type c10CapStep struct {
+	A     string   `json:"a"`
+	K     string   `json:"k"`
+	Bm    []string `json:"bm"`
+	Ips   []int    `json:"ips"`
+	Ok    bool     `json:"ok"`
+	After []c10Rec `json:"after"`
+}
+type c10CapBehaviour struct {
+	Hist []c10CapStep `json:"hist"`
+}
+
+func TestVerifC10Cap(t *testing.T) {
+	bs, err := verifutil.ReadLines[c10CapBehaviour]("VERIF_IN")
+	if err != nil {
+		t.Fatal(err)
+	}
+	res := verifutil.NewResult()
+	defer func() {
+		if err := res.Write(); err != nil {
+			t.Fatal(err)
+		}
+	}()
+	capacity := verifutil.EnvInt("VERIF_C10_CAP", 2)
+	// a table with the layout of domain_routing_map and room for `capacity` entries
+	small, err := ebpf.NewMap(&ebpf.MapSpec{Name: "verif_dr_small", Type: ebpf.Hash, KeySize: uint32(binary.Size([4]uint32{})),
+		ValueSize: uint32(binary.Size(bpfDomainRouting{})), MaxEntries: uint32(capacity), Flags: unix.BPF_F_NO_PREALLOC})
+	if err != nil {
+		res.Note("creating the small table: " + err.Error())
+		t.Fatal(err)
+	}
+	defer small.Close()
+	core := &controlPlaneCore{}
+	core.bpf.Store(&bpfObjects{bpfMaps: bpfMaps{DomainRoutingMap: small}})
+	read := func() (map[[4]uint32][32]uint32, error) {
+		out := map[[4]uint32][32]uint32{}
+		it := small.Iterate()
+		var key [4]uint32
+		var val bpfDomainRouting
+		for it.Next(&key, &val) {
+			out[key] = val.Bitmap
+		}
+		return out, it.Err()
+	}
+	for bi, b := range bs {
+		res.Case()
+		core.domainRouting = newDomainRoutingTracker()
+		if err := BpfMapBatchDeleteAll[[4]uint32, bpfDomainRouting](small); err != nil {
+			t.Fatalf("clearing the small table: %v", err)
+		}
+		if bi < 2 {
+			js, _ := json.Marshal(b.Hist)
+			res.Sample(json.RawMessage(js))
+		}
+		var trail []string
+		for _, st := range b.Hist {
+			cache := c10Cache(st.K, st.Bm, st.Ips)
+			var err error
+			if st.A == "update" {
+				err = core.BatchUpdateDomainRouting(cache)
+			} else {
+				err = core.BatchRemoveDomainRouting(cache)
+			}
+			outcome := "ok"
+			if err != nil {
+				outcome = "fails: table full"
+			}
+			trail = append(trail, fmt.Sprintf("%s(%s,bm=%v,ips=%v) %s", st.A, st.K, st.Bm, st.Ips, outcome))
+			key := fmt.Sprintf("c10cap:%v", trail)
+			if (err == nil) != st.Ok {
+				// the kernel decides what fits; a different outcome than the model's means the history is not the modelled one
+				res.Count("c10cap_outcome_differs", 1)
+				break
+			}
+			got, rerr := read()
+			if rerr != nil {
+				t.Fatalf("iterate: %v", rerr)
+			}
+			want := map[[4]uint32][32]uint32{}
+			for _, r := range st.After {
+				a16 := c10Addr(r.Addr).As16()
+				var bmv [32]uint32
+				copy(bmv[:], c10Bitmap(r.Bm))
+				want[common.Ipv6ByteSliceToUint32Array(a16[:])] = bmv
+			}
+			res.Eval(1)
+			bad := len(got) != len(want)
+			for kk, wv := range want {
+				if gv, ok := got[kk]; !ok || gv != wv {
+					bad = true
+				}
+			}
+			if bad {
+				res.Failf(key, trail, "table of %d entries, history %v: the kernel table holds %v, expected %v (once every entry has been synced successfully the table must again be the union of the live entries' bitmaps)", capacity, trail, c10Keys(got), st.After)
+				break
+			}
+		}
+	}
 }
